@@ -238,7 +238,13 @@ impl Format {
                 prev_item = cur_item;
                 prev_token = cur_token;
 
-                let end_idx = if !is_last || !char.is_numeric() {
+                // At the end of the string the last character belongs to the field, unless it is a
+                // terminator: a number ends in a digit, a name (month, weekday) in a letter.
+                let last_in_field = is_last
+                    && !stop
+                    && (char.is_numeric()
+                        || (!cur_token.is_numeric() && !cur_item.sep_char_is(char)));
+                let end_idx = if !last_in_field {
                     // Only advance the token if we aren't at the end of the string
                     if !stop
                         && cur_item.sep_char_is_not(char)
